@@ -161,6 +161,7 @@ class OpCtx:
         self.inflight = []            # [(content, mtime)] versions the file took while in flight
         self.start = None             # (content, mtime) at op start
         self.src_raws = []            # SimRaw objects this op opened on its source file
+        self.pre_mtimes = []          # mtimes this op's own stat calls saw before it opened the source
         self.pkl_read = False
         self.pkl_written = False
         self.src_opened = False
@@ -246,6 +247,7 @@ class World:
         self.nsteps = 0
         self.sim_span = 0.0
         self.harness_error = None
+        self.shared = bool(cfg.get('threads_share_process', False))
 
     # ------------------------------------------------------------------ util
     def count(self, key, n=1):
@@ -292,7 +294,7 @@ class World:
         pc.parser_cache.clear()
         warnings.showwarning = self._showwarning
         self._wfilters = warnings.filters[:]
-        warnings.simplefilter('always')
+        warnings.simplefilter('error' if cfg.get('warn_error') else 'always')
         self._loghandler = _DiffLog(self)
         pdiff.LOG.addHandler(self._loghandler)
         self._loglevel = pdiff.LOG.level
@@ -324,7 +326,11 @@ class World:
         self.fs.hook = None
 
     def _pid(self):
-        return None if self.cur is None else 4000 + self.cur * 10 + self.procs[self.cur].incarnation % 10
+        if self.cur is None:
+            return None
+        if self.shared:
+            return 4000 + self.procs[0].incarnation % 10
+        return 4000 + self.cur * 10 + self.procs[self.cur].incarnation % 10
 
     def _showwarning(self, message, category, filename, lineno, file=None, line=None):
         if self.cur is not None:
@@ -343,10 +349,14 @@ class World:
 
     # ------------------------------------------------------------ baton logic
     def _install_cache(self, proc):
+        if self.shared:
+            return                       # threads of one process: one parser_cache, never swapped
         pc.parser_cache.clear()
         pc.parser_cache.update(proc.cache)
 
     def _save_cache(self, proc):
+        if self.shared:
+            return
         proc.cache = dict(pc.parser_cache)
         pc.parser_cache.clear()
 
@@ -435,15 +445,16 @@ class World:
         d = 0 if (ctx.op.get('quiet') or ctx.op['k'] == 'repaircheck') else ctx.decide(chooser)
         self.log('s', ctx.index, pid, kind, pclass, d, size)
         if d == D_NONE:
+            self._observe(ctx, kind, path, pclass)
             return None
         if D_YIELD_LO <= d <= D_YIELD_HI:
             choices = self._choices(pid)
-            if not choices:
-                return None
-            self.count('yield')
-            self._to_driver(proc, ('yield', choices[(d - 1) % len(choices)]))
-            if proc.dead:
-                raise SimCrash()
+            if choices:
+                self.count('yield')
+                self._to_driver(proc, ('yield', choices[(d - 1) % len(choices)]))
+                if proc.dead:
+                    raise SimCrash()
+            self._observe(ctx, kind, path, pclass)
             return None
         if d == D_CRASH_BEFORE:
             proc.dead = True
@@ -471,6 +482,14 @@ class World:
             raise e
         return None
 
+    def _observe(self, ctx, kind, path, pclass):
+        # the call executes right after the seam returns: what a stat of the op's own source will see
+        if kind == 'stat' and pclass == 'src' and not ctx.src_opened and ctx.op['k'] in ('parse', 'repaircheck') \
+                and 'code' not in ctx.op and os.fspath(path) == self.files[ctx.op['f'] % len(self.files)]:
+            n = self.fs.h_node(path)
+            if n is not None and not n.is_dir:
+                ctx.pre_mtimes.append(n.mtime)
+
     def _check_remove(self, ctx, path, pclass):
         """Maintenance oracle: a process may only delete cache files unused for 30 days."""
         if pclass == 'src':
@@ -479,13 +498,19 @@ class World:
         n = self.fs.h_node(path)
         if n is None or n.is_dir:
             return
-        last = max(n.atime, n.mtime)
+        last = n.t_used
         self.count('cleanup.remove')
+        if pclass == 'pkl':
+            try:
+                if not isinstance(_safe_loads(n.data), pc._NodeCacheItem):
+                    return                   # a damaged entry is not "in use"
+            except BaseException:
+                return
         if self.now - last < pc._CACHED_FILE_MAXIMUM_SURVIVAL - 1 and pclass in ('pkl', 'lock'):
             self._violate(ctx, 'maintenance', 'remove-live:' + pclass,
-                          'clean-up removes %s last used %.0f s ago (read %.0f s, written %.0f s ago)'
-                          % (os.path.basename(os.fspath(path)), self.now - last, self.now - n.atime,
-                             self.now - n.mtime))
+                          'clean-up removes %s, really last read or written %.0f s ago (atime %.0f s, mtime '
+                          '%.0f s ago)' % (os.path.basename(os.fspath(path))[:16] + '...', self.now - last,
+                                           self.now - n.atime, self.now - n.mtime))
 
     def _violate(self, ctx, clause, sig, detail):
         if self.violation is None:
@@ -663,6 +688,16 @@ class World:
                                   'still was not served from the disk cache')
 
     def _restart(self, proc):
+        if self.shared:
+            # the whole process restarts: every thread of it dies, the memory cache is gone
+            pc.parser_cache.clear()
+            for p in self.procs:
+                if p.pid in self.inflight and p is not proc:
+                    p.dead = True
+                else:
+                    p.dead = False
+            self.procs[0].incarnation += 1
+            return
         proc.cache = {}
         proc.dead = False
         proc.incarnation += 1
@@ -715,12 +750,16 @@ class World:
             for raw in ctx.src_raws:
                 got = b''.join(raw.bytes_read)
                 adm.append(got)
-                # what this op read may legitimately be cached with any of the mtimes the file had
-                # during the op (a torn read under an in-place save is not one of the file's versions)
-                m_max = max([m for m in [m_now] + [x[1] for x in ctx.inflight] if m is not None], default=None)
-                if m_max is not None and all(got != c for c, _ in self.versions.get(f, [])):
-                    self.versions.setdefault(f, []).append((got, m_max))
-                    self.count('probe.torn_read_recorded')
+                # An implementation may associate what it read with the latest mtime it observed itself
+                # *before* reading (with time moving forward that is never newer than the content).  If
+                # mtimes moved backwards meanwhile, or the read was torn by an in-place save, this pair
+                # is not one of the file's versions: record it, it may legitimately be served later
+                # while the file's mtime is not newer than that observation.
+                if ctx.pre_mtimes:
+                    m_obs = max(ctx.pre_mtimes)
+                    if not any(got == c and m is not None and m >= m_obs for c, m in self.versions.get(f, [])):
+                        self.versions.setdefault(f, []).append((got, m_obs))
+                        self.count('probe.observed_pair_recorded')
         seen = []
         for c in adm:
             if c not in seen:
@@ -733,6 +772,9 @@ class World:
                 self.count('probe.op_failed_with_injected_error')
                 return                       # an op may fail with the very error injected into it
             name = type(e).__name__
+            if self.cfg.get('warn_error') and isinstance(e, Warning):
+                self.count('probe.warning_raised_as_error')
+                return                       # the caller asked for warnings to be errors (-W error)
             for c in adm:
                 r = ref_outcome(version, c)
                 if r[0] == 'exc' and r[1] == name:
@@ -904,7 +946,7 @@ class World:
                 else:
                     targets = [files[op['sel'] % len(files)]]
                 for name, n in targets:
-                    n.atime = n.mtime = t
+                    n.atime = n.mtime = n.t_used = t
             if op.get('lock'):
                 n = fs.h_node(os.path.join(os.fspath(self.cdir(op.get('c', 0))), 'PARSO-CACHE-LOCK'))
                 if n is not None:
